@@ -128,7 +128,31 @@ class Sanitize(EventRule):
             return [(w, ('lf', 'unknown', False))]
         if p == 'core::str::<impl str>::is_empty' and args and args[0][0] == 'lf':
             pending, done = w.st
-            return [(w.with_st((pending, True)), TRUE), (w, FALSE)]
+            # an empty text needs no write
+            return [(w.with_st((tuple(x for x in pending if x != ('whole', args[0][1])), True)), TRUE), (w, FALSE)]
+        if p == 'core::str::<impl str>::split_once' and len(args) == 2 and args[0][0] == 'lf':
+            # `text.split_once('\n')`: None = no LF in the text; Some((line, tail)) = the LF-free part before the first LF and
+            # everything after that LF (the scan resumes exactly one byte after it by construction)
+            x = args[0]
+            if int_singleton(args[1]) != LF:
+                self.violation('C13.sanitise', "C13|sanitise|%s|pred" % ci.fn.npath,
+                               "%s: the text is split at something other than LF at %s" % (ci.fn.npath, ci.span))
+                return None
+            pending, done = w.st
+            if pending:
+                self.violation('C13.sanitise', "C13|sanitise|%s|resume" % ci.fn.npath,
+                               "%s: the scan for LF resumes before the line and its CR LF were written at %s" % (ci.fn.npath, ci.span))
+            clean = ('lf', x[1], True)
+            s2 = {k: subst(v, x, clean) for k, v in w.store.items()}
+            from ..absint import World
+            w_none = World(s2, ((('whole', x[1]),), done))
+            w_some = w.with_st(((('pre', x[1]), ('crlf',)), done))
+            return [(w_none, none()), (w_some, some(('tuple', (('lf', x[1] + '.pre', True), ('lf', NEXT_GEN.get(x[1], 'r1'), False)))))]
+        if p in ('core::slice::<impl [T]>::split_last', 'core::slice::<impl [T]>::split_first') and args and args[0][0] == 'lf':
+            x = args[0]
+            pending, done = w.st
+            w_empty = w.with_st((tuple(y for y in pending if y != ('whole', x[1])), True))
+            return [(w_empty, none()), (w, some(('tuple', (('ref', ('const', mk_int(range(256)))), ('lf', x[1] + '.part', x[2])))))]
         return super().on_call(I, w, ci, args)
 
     def step(self, I, w, ev, outcome, ci, args):
@@ -348,6 +372,9 @@ class DirtyRule:
         if p.endswith('WriteExt::write_str') or p.endswith('WriteExt::write_bytes'):
             from ..absint import ok
             return [(w, ok(UNIT))]
+        if a0[0] == 'thead' and p == 'core::slice::<impl [T]>::last':
+            # the bytes before the last one of an LF-free remainder: its own last byte, if any
+            return [(w, none() if a0[1] is None else some(('ref', ('const', self._cls(a0[1])))))]
         if a0[0] != 'tstr':
             if p == 'core::slice::<impl [T]>::iter' and a0[0] == 'tbytes':
                 return [(w, a0)]
@@ -369,6 +396,21 @@ class DirtyRule:
             if t[1] == 0:
                 return [(w, ('sym', 'len'))]
             return [(w, TOP)]
+        if p == 'core::str::<impl str>::split_once' and len(args) == 2:
+            if int_singleton(args[1]) != 10:
+                return None
+            if t[1] > 0:
+                return [(w, some(('tuple', (('sym', 'line'), ('tstr', t[1] - 1, t[2])))))]
+            return [(w, none())]
+        if p in ('core::slice::<impl [T]>::split_last',):
+            tail = t[2]
+            if t[1] > 0:
+                return None          # text with line feeds left: not the LF-free remainder this idiom is for
+            if tail[0] == 'E':
+                return [(w, none())]
+            last = ('ref', ('const', self._cls(tail[3])))
+            head = ('thead', tail[2] if tail[1] == '2+' else None)
+            return [(w, some(('tuple', (last, head))))]
         if p == 'core::str::<impl str>::get_unchecked':
             r = args[1]
             if r[0] == 'adt' and r[1].endswith('RangeTo') and r[3][0] == ('sym', 'lfpos'):
